@@ -142,6 +142,17 @@ def _r1(ctx):
             tparent = pm.get(id(c))
             is_guard = isinstance(tparent, ast.If) and isinstance(tparent.body[-1], ast.Raise)
             if pat == r"\w\s+\w" or (r"\s" in pat and r"\w" in pat):
+                # the guard rejects exactly 'two names separated only by whitespace': evaluate the (constant) pattern on fixed probes
+                try:
+                    rx = re.compile(pat)
+                    must = ["a b", "A[m] B[m]x y", "x1\ty2", "Z[m] = A[m] * junk B[m]"]
+                    must_not = ["Z [m] = A [m] * B[m]", "Z[m] = A[m] * B[m]", "Z[m]\t=\tA[m]", "Z[ m , n ] = A[ m ] + B[ n ]", "Z[M: m + 1] = A[m]", "Z[m] =A[m]* B[m]"]
+                    sem_ok = all(rx.search(x) for x in must) and not any(rx.search(x) for x in must_not)
+                    culprit = [x for x in must_not if rx.search(x)] + [x for x in must if not rx.search(x)]
+                except re.error:
+                    sem_ok, culprit = False, ["pattern does not compile"]
+                ctx.check(sem_ok, R, fi, c.args[0], f"the whitespace guard {pat!r} does not mean 'two names separated only by whitespace': it mis-classifies {culprit[:2]} "
+                                                     f"(valid concise strings such as 'Z [m] = ...' are rejected, or name-space-name passes)", f"guard {pat!r}: rejects name-space-name, accepts whitespace around brackets and operators")
                 n = cfg.node_of(tparent) if is_guard else None
                 before = n is not None and all(sn is not None and cfg.dominates(n, sn) for sn in strip_nodes) and bool(strip_nodes)
                 on_param = subject == fi.params()[0]
@@ -295,6 +306,8 @@ VARIANTS = [
         (WL, "            result[part.upper()] = part\n", "            result[part.capitalize()] = part\n")]},
     {"kind": "F", "name": "inputs-flagged-output", "rule": "C23-R3", "edits": [
         (WL, "    for m in input_matches:\n        update(m, False)", "    for m in input_matches:\n        update(m, True)")]},
+    {"kind": "F", "name": "whitespace-guard-too-wide", "rule": "C23-R1", "edits": [
+        (WL, 'if re.search(r"\\w\\s+\\w", einsum_str):', 'if re.search(r"[\\w\\]]\\s+[\\w\\[]", einsum_str):')]},
     {"kind": "S", "name": "precompiled-residue-check", "edits": [
         (WL, 'if re.search(r"[\\w\\[\\]]", residue):', 'if re.search(r"[A-Za-z0-9_\\[\\]]", residue):')]},
 ]
